@@ -33,9 +33,16 @@ def gen(rng):
             'cd': rng.choice([0, TICK / 2, 5 * TICK, 5 * TICK, 50 * TICK])}
 
 
+def _who():
+    import threading
+    m = simrt.me()
+    return m.name if m is not None else threading.current_thread().name
+
+
 class IterHarness:
-    def __init__(self, A):
+    def __init__(self, A, execute=None):
         self.A = A
+        self.execute = execute or simrt.execute
 
     def run(self, scen, strategy, delays=None):
         A = self.A
@@ -49,7 +56,7 @@ class IterHarness:
         def main(s):
             err = HarnessError('source', id(s))
             box['err'] = err
-            spawned_before = len(s.ts)
+            spawned_before = len(s.ts) if hasattr(s, 'ts') else 0
 
             def emit(*ev):
                 if not s.dead:
@@ -59,12 +66,12 @@ class IterHarness:
                 for i, x in enumerate(elems):
                     if pd:
                         simrt.sim_sleep(pd)
-                    box['src_threads'].add(simrt.me().name)
-                    emit('src_next', i, simrt.me().name)
+                    box['src_threads'].add(_who())
+                    emit('src_next', i, _who())
                     if fail == i:
                         raise err
                     yield x
-                emit('src_end', simrt.me().name)
+                emit('src_end', _who())
                 if fail == n:
                     raise err
 
@@ -110,8 +117,15 @@ class IterHarness:
                         raise StopAsyncIteration
                     return elems[i]
 
+            import threading as _th
+            real_before = {t.ident for t in _th.enumerate()}
+
             def helper_threads_alive():
-                return [t.name for t in s.ts[spawned_before:] if t.name.startswith('pool') and t.st != simrt.DONE]
+                if hasattr(s, 'ts'):
+                    return [t.name for t in s.ts[spawned_before:] if t.name.startswith('pool') and t.st != simrt.DONE]
+                # Engine B: real executor threads that did not exist before the iteration started
+                return [t.name for t in _th.enumerate() if t.ident not in real_before and t.is_alive()
+                        and t.name.startswith('ThreadPoolExecutor')]
 
             def consumer():
                 if kind.startswith('a-'):
@@ -166,10 +180,10 @@ class IterHarness:
             s.spawn(consumer, 'C')
 
         def pre(s):
-            if delays:
+            if delays and hasattr(s, 'line_delays'):
                 s.line_delays = [dict(d) for d in delays]
 
-        r = simrt.execute(main, strategy, max_steps=60000, watchdog=60.0, pre=pre, max_virtual=90.0)
+        r = self.execute(main, strategy, max_steps=60000, watchdog=60.0, pre=pre, max_virtual=90.0)
         r.extra = box
         return r
 
@@ -195,11 +209,21 @@ class C16(Check):
         simrt.prepare([A])
         self.h = IterHarness(A)
 
+    REAL = {'quick': 16, 'thorough': 320}
+
     def cases(self, tier, seed):
-        for i in range(self.SIZES[tier]):
+        n = self.SIZES[tier]
+        nreal = self.REAL[tier]
+        every = max(1, n // nreal)
+        for i in range(n):
+            if i % every == 0 and i // every < nreal:
+                yield {'real': True, 'seed': (seed << 32) + i}
             yield {'seed': (seed << 32) + i}
 
     def run_case(self, case):
+        if case.get('real'):
+            from vf import engine_b
+            return engine_b.batch_case('iters', 'x', case['seed'], 30, 'nontrivial')
         rng = random.Random(case['seed'])
         scen = gen(rng)
         k = rng.random()
@@ -216,6 +240,9 @@ class C16(Check):
             delays = [{'thread': rng.choice(['C', 'C', 'pool']), 'qual': rng.choice(['to_async_iter', 'to_sync_iter']),
                        'nth': rng.randint(1, 40), 'd': rng.choice([TICK, 10 * TICK, 100 * TICK])}]
         r = self.h.run(scen, strat, delays)
+        return self.judge(scen, r, strat)
+
+    def judge(self, scen, r, strat, real=False):
         res = CaseResult()
         res.sig = r.signature
         res.cov = {k: c for k, c in r.sched.line_cov.items() if k[0].startswith(self.anchors)}
@@ -263,7 +290,7 @@ class C16(Check):
                     res.violate('C16:iterated-on-loop-thread', 'a synchronous iterator was advanced on the event-loop thread')
                 gaps = [b - a for a, b in zip(box['ticks'], box['ticks'][1:])]
                 # (a delay injected into the loop thread itself stalls the ticker by construction)
-                if scen['pd'] > TICK and not any(d[0] == 'C' for d in r.sched.delays_fired):
+                if not real and scen['pd'] > TICK and not any(d[0] == 'C' for d in r.sched.delays_fired):
                     st['responsiveness_judged'] += 1
                     if gaps and max(gaps) > TICK + EPS:
                         res.violate('C16:loop-blocked', 'the event loop did not run while the synchronous iterator was blocked',
@@ -278,7 +305,7 @@ class C16(Check):
         if res.violations or res.nontrivial:
             sc = dict(scen)
             sc['elems'] = [repr(e) for e in scen['elems']]
-            res.sample = {'scenario': sc, 'strategy': strat.describe(), 'received': [repr(x) for x in got],
+            res.sample = {'scenario': sc, 'strategy': strat.describe() if strat else 'engine B (free-running)', 'received': [repr(x) for x in got],
                           'end': repr(box['end']), 'log': r.log[:40], 'switches': r.sched.switches[:10]}
         return res
 
